@@ -24,7 +24,7 @@ FLAG_NAMES = ['PROPERTY_MAX_COUNTS', 'PROPERTY_TOP_LEVEL', 'PROPERTY_BOUNDING_BO
 def flag_bits():
     """config flag values from the public header (include/gdstk/oasis.hpp) - read once, by name"""
     import re
-    txt = open('/repo/include/gdstk/oasis.hpp').read()
+    txt = open(vfw.REPO + '/include/gdstk/oasis.hpp').read()
     out = {}
     for nm in FLAG_NAMES:
         m = re.search(r'OASIS_CONFIG_%s\s+(0x[0-9a-fA-F]+|\d+)' % nm, txt)
@@ -35,7 +35,7 @@ def flag_bits():
 def special_polygons(rnd, g):
     """shapes the writer may turn into RECTANGLE / TRAPEZOID / CTRAPEZOID / CIRCLE records"""
     out = []
-    k = rnd.randrange(9)
+    k = rnd.randrange(10)
     x, y = rnd.randrange(-100, 100), rnd.randrange(-100, 100)
     w, h = rnd.randrange(2, 40), rnd.randrange(2, 40)
     if k == 0:
@@ -61,6 +61,9 @@ def special_polygons(rnd, g):
         pts = pts[s:] + pts[:s]
     elif k == 5:
         pts = [(x, y), (x + w, y), (x, y + w)]
+    elif k == 9:
+        # corners off the grid that round in opposite directions: the box on the grid is one unit larger than the rounded difference
+        pts = [(x - 0.4, y - 0.4), (x + w + 0.4, y - 0.4), (x + w + 0.4, y + h + 0.4), (x - 0.4, y + h + 0.4)]
     elif k == 8:
         # a sliver whose vertices lie near one arc of a large circle without going around it
         ww, hh = rnd.randrange(8, 15), rnd.randrange(1, 3)
